@@ -330,6 +330,23 @@ func directedBus(name string, idx int) (*busProgram, func([]who) who) {
 		p.bodies[panicBody] = []action{pub(0, panicRetryBelow+1, 0)}
 		p.threads = [][]action{{sub(0, hspec{fn: 0, async: true, seq: true, filter: -1, body: 1}), sub(0, hspec{fn: 2, filter: -1}), pub(0, 1, 0), {kind: "wait"}, {kind: "count", t: 0}}}
 		return p, newestPick
+	case name == "bus08" && idx == 0:
+		// the second of five synchronous handlers - a plain one - cancels the publish's context: none of the later ones
+		// (plain, context-aware, plain) may start; the hooks still run
+		p := base()
+		p.bodies[1] = []action{{kind: "cancel", c: 1}}
+		p.bodies[2] = []action{}
+		p.opts, p.optArgs = []string{"afterCtx"}, []int{2}
+		p.threads = [][]action{{sub(0, hspec{fn: 0, filter: -1}), sub(0, hspec{fn: 2, filter: -1, body: 1}), sub(0, hspec{fn: 4, filter: -1}),
+			sub(0, hspec{fn: 5, ctx: true, filter: -1}), sub(0, hspec{fn: 6, filter: -1}), pub(0, 1, 1), {kind: "count", t: 0}, pub(0, 2, 1)}}
+		return p, newestPick
+	case name == "bus08" && idx == 1:
+		// the same with a context-aware handler cancelling, and a synchronous Once handler behind it (must not be used up)
+		p := base()
+		p.bodies[1] = []action{{kind: "cancel", c: 2}}
+		p.threads = [][]action{{sub(0, hspec{fn: 1, ctx: true, filter: -1, body: 1}), sub(0, hspec{fn: 2, once: true, filter: -1}), sub(0, hspec{fn: 4, filter: -1}),
+			pub(0, 1, 2), {kind: "count", t: 0}, pub(0, 2, 0), {kind: "count", t: 0}}}
+		return p, newestPick
 	case name == "bus04" && idx == 0:
 		// Once handler: a publish with an already-cancelled context, then an eligible one
 		p := base()
